@@ -10,6 +10,9 @@ const (
 )
 
 func frozen(h *harnessSpec) *harnessSpec { h.frozenClock = true; return h }
+
+// strh: string-heavy sequential harness: cvc5 decides, z3 is consulted when cvc5 answers unknown
+func strh(h *harnessSpec) *harnessSpec { h.solver, h.altSolver = "cvc5", true; return h }
 func ticks(h *harnessSpec, n int) *harnessSpec { h.maxTicks = n; return h }
 
 func hs(pkg, name string, pb int, desc string, reach ...string) *harnessSpec {
@@ -35,18 +38,22 @@ var checkRegistry = []*checkSpec{
 	{
 		id: "C20", level: "other",
 		quick: []*harnessSpec{
-			hs(pkgFatalerror, "VerifC20ErrorType", 0, "GetValidRuntimeOrFunctionErrorType on an arbitrary printable-ASCII string of any length vs the exact-form specification", "exact", "function-unknown", "runtime-unknown"),
+			strh(hs(pkgFatalerror, "VerifC20ErrorType", 0, "GetValidRuntimeOrFunctionErrorType on an arbitrary printable-ASCII string of any length vs the exact-form specification", "exact", "function-unknown", "runtime-unknown")),
+			strh(hs(modulePath+"/lambda/appctx", "VerifC20RuntimeRelease", 0, "CreateRuntimeReleaseFromRequest: user agent absent / token / token + text, 0..3 feature tokens of symbolic lengths: result form and the 128-byte bound", "no-features", "features-appended")),
+			strh(hs(modulePath+"/lambda/appctx", "VerifC20RuntimeReleaseFixed", 0, "UpdateAppCtxWithRuntimeRelease: a stored value ending in the feature list is unchanged by any later request", "done")),
+			strh(hs(modulePath+"/lambda/rapi/model", "VerifC20ErrorCauseEmpty", 0, "ValidatedErrorCauseJSON: all-empty and invalid documents are dropped, recognised fields are passed on", "done")),
+			strh(hs(modulePath+"/lambda/rapi/model", "VerifC20Crop", 0, "cropString: prefix + truncation mark, length bound, symbolic string and length", "cropped")),
 		},
-		assume:  []string{"header values are printable ASCII (net/http rejects the rest)", "regexp.MatchString contract: constant pattern translated to an SMT-LIB RegLan"},
-		outside: []string{"HTTP transport"},
+		assume:  []string{"header values are printable ASCII (net/http rejects the rest)", "regexp.MatchString contract: constant pattern translated to an SMT-LIB RegLan", "user agent and features are built from declared whitespace-free tokens of symbolic length (strings.Fields / ReplaceAll act structurally on them)"},
+		outside: []string{"the 64 KiB bound of the re-marshalled error cause under JSON escaping (z3 and cvc5 both time out on the escape-length reasoning; not claimed)", "HTTP transport"},
 	},
 }
 
 func init() {
 	c17 := []*harnessSpec{
-		frozen(hs(pkgDirect, "VerifC17Stateless", 0, "ReceiveDirectInvoke from havocked package variables (any request history) vs a fresh process: same outcome (relational)", "accepted", "refused", "streaming")),
-		hs(pkgDirect, "VerifC17Validation", 0, "ReceiveDirectInvoke: token validation, header defaults and ranges, symbolic headers and token", "ok", "ok-streaming", "refused"),
-		hs(pkgDirect, "VerifC17Classify", 0, "sendPayloadLimitedResponse: payload of symbolic length/content, symbolic limit, symbolic copy error: forwarded bytes and Complete/Oversized/Truncated", "complete", "oversized", "truncated"),
+		frozen(strh(hs(pkgDirect, "VerifC17Stateless", 0, "ReceiveDirectInvoke from havocked package variables (any request history) vs a fresh process: same outcome (relational)", "accepted", "refused", "streaming"))),
+		strh(hs(pkgDirect, "VerifC17Validation", 0, "ReceiveDirectInvoke: token validation, header defaults and ranges, symbolic headers and token", "ok", "ok-streaming", "refused")),
+		strh(hs(pkgDirect, "VerifC17Classify", 0, "sendPayloadLimitedResponse: payload of symbolic length/content, symbolic limit, symbolic copy error: forwarded bytes and Complete/Oversized/Truncated", "complete", "oversized", "truncated")),
 		ticks(cclock(hs(pkgDirect, "VerifC17StreamReset", 2, "sendStreamingInvokeResponse with its real copy goroutine, throttler and ticker: a reset arriving while the /response body stalls is acknowledged, the connection is closed, the copy terminates and is classified Truncated; uninterrupted copy is Complete", "reset-during-stall", "complete")), 2),
 		hs(pkgDirect, "VerifC17BucketParams", 0, "NewStreamedResponseWriter arithmetic for every rate/burst in the validated ranges", "writer"),
 		hs(pkgBW, "VerifC17BucketStep", 0, "one step of Bucket.produceTokens/consumeTokens from an arbitrary valid state preserves sent+tokens <= burst+refills (inductive lemma)", "produce", "consume-ok", "consume-refused"),
@@ -244,6 +251,26 @@ func init() {
 	checkRegistry = append(checkRegistry, &checkSpec{id: "C18", level: "other", quick: c18, thorough: withD(c18, 3, 1000000),
 		assume:  []string{"ORCH composition in init-caching mode with the real handleRestore / AwaitRuntimeReadyWithDeadline / credentials service / credentials handler; hook timeout as a logical timer firing at quiescence"},
 		outside: []string{"wall-clock bound of the timeout", "orders in which the restore request arrives before the runtime parked (init completes first here)"}})
+}
+
+func init() {
+	pkgRC := modulePath + "/lambda/rapidcore"
+	c14h := orch(pkgRC, "VerifC14Oversize", 0, "FULL stack: a response of symbolic length > 6 MiB + 100 (413, Function.ResponseSizeTooLarge with both sizes, nothing of the payload delivered, no reset), then a response of symbolic length <= the limit on the same environment, then an event of symbolic length > the limit polled twice (cut at the limit both times)", "scenario-done")
+	c14h.solver, c14h.altSolver = "cvc5", true
+	c14t := orch(pkgRC, "VerifC14Oversize", 1, "as quick, schedules with <= 1 delay", "scenario-done")
+	c14t.solver, c14t.altSolver = "cvc5", true
+	checkRegistry = append(checkRegistry, &checkSpec{id: "C14", level: "other", quick: []*harnessSpec{c14h}, thorough: []*harnessSpec{c14t},
+		assume:  []string{"FULL composition from go/ssa; payloads are symbolic byte sequences whose lengths are only constrained to be above / at most the limit (multi-megabyte lengths; cvc5 decides the length reasoning, z3 the integer formatting)", "io.ReadAll / LimitReader / bytes.Buffer contracts of gosmt"},
+		outside: []string{"positions other than first/second/third in a sequence", "transport chunking"}})
+
+	pkgEnv := modulePath + "/lambda/rapidcore/env"
+	checkRegistry = append(checkRegistry, &checkSpec{id: "C16", level: "other",
+		quick: []*harnessSpec{
+			strh(hs(pkgEnv, "VerifC16Env", 0, "NewEnvironment / StoreRuntimeAPIEnvironmentVariable / SetHandler / StoreEnvironmentVariablesFromInit / RuntimeExecEnv / AgentExecEnv with a symbolic customer key (may equal any reserved key) and symbolic values, handler override, credentials, function name/version, runtime API address", "customer-unshadowed", "customer-shadowed")),
+			strh(hs(pkgEnv, "VerifC16Split", 0, "SplitEnvironmentVariable(k+\"=\"+v) for symbolic k (without '=') and v (anything)")),
+		},
+		assume:  []string{"maps with symbolic keys are case-split on key equality by the engine", "os.LookupEnv / os.Environ stubbed by the harness (TZ, AWS_EXECUTION_ENV concrete, AWS_XRAY_DAEMON_ADDRESS symbolic presence)"},
+		outside: []string{"that the stored Runtime API address is the one the API server really listens on (rapid.Start formats it before Listen; with port 0 they differ) -- not encoded", "init-caching credential mode (covered by C18's harness)", "the kernel's environment passing"}})
 }
 
 // expiry: timers are not restricted to quiescence (the harness switches them with verifRaceTimers)
